@@ -933,6 +933,9 @@ func main() {
 	if r.Shard == 0 && os.Getenv("VERIF_C13_NO_DIRECTED") == "" {
 		phase("directed", func() { runDirected(r, rp) })
 	}
+	if r.Shard%4 == 0 {
+		phase("single-field", func() { runFields(r, rp) })
+	}
 	phase("random", func() { runRandom(r, rp, rng) })
 	phase("readers-vs-writer", func() { runConcurrent(r, rp, rng) })
 	phase("two-writers", func() { runTwoWriters(r, rng) })
